@@ -61,6 +61,10 @@ def run(ctx):
         # the readers of value frames (list / by-code property readers, string / array / kv readers) against their model + the
         # reader-consistency monitor: a value a client stored must be read back the same through every accessor
         c14t.run_texthandlers(ctx, prefixes=("C14:",))
+        # value frames: what the library's own constructors build (properties, empty values, every operation) must be accepted by the
+        # decoder of the wire form (NewLockCommandDataFromOriginBytes) — the M-VALUE differential with its `refused-well-formed` monitor
+        from props import c15v
+        c15v.run_value(ctx, want=lambda sig: sig.startswith("refused-well-formed"), which=())
     except ImportError:
         pass
     ctx.cov["rule"] = ("per layout: random field values (edge bytes, ascending bytes, random; names well-formed/too long/NUL at edge) through the real "
